@@ -499,6 +499,16 @@ def specs():
         add("convert_node", node, kind, K("<node>", fn="convert_def"))
     for kind in ("TypeDef", "TypeAlias", "Class", "Parent"):
         add("convert_node", node, kind, K("<node>", fn="convert_class"))
+    # --- definitions (annotation slots are C11's subject, the emitted name C15's)
+    defs = CONV + "definition.rs"
+    body = OneOf(K("body", state={"expand_ty": True}), C("Pass"))
+    add("convert_def", defs, "FunArg", C("FunArg", vararg=Kid("vararg"), var=K("var"), ty=ANY, default=Opt("default", K("default"))))
+    add("convert_def", defs, "FunDef", OneOf(C("FunDef", dec=ANY, id=ANY, arg=_vec("args"), ty=ANY, body=body),
+                                              C("FunDefOp", op=ANY, arg=_vec("args"), ty=ANY, body=body)))
+    add("convert_def", defs, "VariableDef", When(
+        lambda a: a.svals["def_as_fun_arg"],
+        C("FunArg", vararg=False, var=K("var"), ty=ANY, default=Opt("expr", K("expr"))),
+        C("VarDef", var=K("var"), ty=ANY, expr=OneOf(Opt("expr", K("expr")), some(C("Tuple", elements=ANY))))))
     # --- control flow
     cond = K("cond", state=CLEARED)
     add("convert_cntrl_flow", flow, "IfElse", OneOf(
@@ -687,7 +697,7 @@ def check_loop(arm, sp):
     return n, pairs, notes
 
 
-OWN_ERRORS = {"ListBuilder", "SetBuilder", "DictBuilder", "Handle", "Condition"}
+OWN_ERRORS = {"ListBuilder", "SetBuilder", "DictBuilder", "Handle", "Condition", "FunDef"}
 
 
 def err_pairs(arm, sp):
@@ -755,6 +765,11 @@ STRUCT_PROGRAMS = {
     "SetBuilder": [("def h := [1, 5]\ndef i: Set[Int] := { x + 1 | x in h, x > 3 }\nfor y in i do print(y)", "6")],
     "DictBuilder": [("def h := [1, 5]\ndef i: Dict[Int, Int] := { x => x + 10 | x in h, x > 3 }\nprint(i[5])", "15")],
     "With": [],
+    "FunArg": [("def f(x: Int, y: Int := 3) -> Int => x - y\nprint(f(10))\nprint(f(10, 1))", "7\n9"),
+               ("def f(vararg xs: Int) -> Int => 3", "3", "print(f(1, 2, 3))")],
+    "FunDef": [("def f() -> Int => 3\nprint(f())", "3"), ("def f(x: Int) => print(x)\nf(4)", "4")],
+    "VariableDef": [("def x := 4\nprint(x)", "4"), ("class A(def v: Int := 5)\ndef a := A()\nprint(a.v)", "5"),
+                    ("def x: Int\nx := 5\nprint(x)", "5")],
     "ExpressionType": [("def a := 2\nmatch a\n    2 => print(\"two\")\n    _ => print(\"other\")", "two")],
     "AddU": [],
 }
